@@ -1507,7 +1507,11 @@ func (db *DB) checkpointIfNeeded(ctx context.Context, exec *syncExecutor, origWA
 	}
 
 	// Priority 2: Regular checkpoint at min threshold (PASSIVE mode)
-	if newWALSize >= calcWALSize(uint32(db.pageSize), uint32(db.MinCheckpointPageN)) {
+	// Like the time-based rule below, only when data was synced since the last
+	// checkpoint: the frame litestream itself writes after a checkpoint must
+	// not count, or a threshold of one page makes every idle sync checkpoint
+	// again and emit another LTX file, without end.
+	if exec.state.syncedSinceCheckpoint && newWALSize >= calcWALSize(uint32(db.pageSize), uint32(db.MinCheckpointPageN)) {
 		if _, err := db.checkpointWithExecutor(ctx, CheckpointModePassive, exec); err != nil {
 			// PASSIVE checkpoints can fail with SQLITE_BUSY when database is locked.
 			// This is expected behavior and not an error - just log and continue.
